@@ -31,6 +31,10 @@ func runC17Virtual(c *c17Case) *c17Obs {
 	// the in-process registry is an unsynchronised global: dial in-process clients one after the other
 	runs := c17RunClients(c, dialSerialised(dial), obs)
 	synctest.Wait()
+	if c.Broadcast && obs.Note == "" {
+		c17Broadcast(srv)
+		synctest.Wait()
+	}
 	c17Collect(c, srv, runs, obs)
 	for _, r := range runs {
 		if r != nil && r.ch != nil {
@@ -45,7 +49,7 @@ func runC17Virtual(c *c17Case) *c17Obs {
 }
 
 func genC17(rt *rapid.T, transports []string, maxClients, maxOps int) *c17Case {
-	c := &c17Case{ChanBuf: rapid.SampledFrom([]int{1, 4, 32}).Draw(rt, "chanBuf")}
+	c := &c17Case{ChanBuf: rapid.SampledFrom([]int{1, 4, 32}).Draw(rt, "chanBuf"), Broadcast: rapid.Bool().Draw(rt, "broadcast")}
 	n := rapid.IntRange(2, maxClients).Draw(rt, "clients")
 	for i := 0; i < n; i++ {
 		cl := c17Client{Transport: rapid.SampledFrom(transports).Draw(rt, "transport")}
